@@ -429,6 +429,7 @@ func c08KeyLimits(c *engine.Ctx, kinds []drv.Kind) {
 			// a key within the 1024 bytes that a file system may still be unable to hold (a
 			// segment longer than a file name), below directories that do not exist yet
 			cases = append(cases, kc{k, via, "new-dirs+300-byte-segment", "newdir/sub/" + strings.Repeat("s", 300), false})
+			cases = append(cases, kc{k, via, "new-dirs+300-byte-top-segment", strings.Repeat("t", 300), false})
 		}
 	}
 	engine.ParallelFor(len(cases), func(_, i int) {
@@ -480,6 +481,13 @@ func c08KeyLimits(c *engine.Ctx, kinds []drv.Kind) {
 			// the backend may be unable to store it; then nothing may be left behind
 			if after := c08Snap(w); after != before {
 				report("state-changed", "the refused upload ("+r.Short()+") changed the stored state:\nbefore:\n"+before+"\nafter:\n"+after)
+				return
+			}
+			// the key was never stored: it reads as absent and deleting it is a no-op
+			if g := w.Do(drv.Req{Method: "GET", Path: "/aaa/" + cs.key}); g.Status != 404 {
+				report("never-stored-key-get", "GET of the key that could not be stored answers "+g.Short()+", want 404 NoSuchKey")
+			} else if d := w.Do(drv.Req{Method: "DELETE", Path: "/aaa/" + cs.key}); d.Status != 204 {
+				report("never-stored-key-delete", "DELETE of the key that could not be stored answers "+d.Short()+", want 204")
 			}
 			return
 		}
